@@ -29,9 +29,8 @@
      - concrete results of successful arithmetic (only the kind is kept), the text of
        printed values and of warnings (only the class), time (a suspended thread resumes in a
        later frame), the contents of other threads (a started sub-thread prints one marker).
-   Known defects of the CURRENT code that the model deliberately does NOT reproduce (they are
-   findings; the generator keeps them behind flags): vector / vector and vector %% vector,
-   shift counts outside 0..63, negative index in vector[i] = x, `owner` as a value. *)
+   Not modelled (kept out of the default generation, recorded as a known finding): a `$name`
+   target list captured in a variable after the list itself was dropped. *)
 From Coq Require Import ZArith List Bool.
 Import ListNotations.
 Local Open Scope Z_scope.
@@ -390,9 +389,10 @@ Definition index (base idx : aval) : option outcome :=
   | KNone => okv base
   | KArray =>
     if hashable (akind idx) then
+      (* the representative array holds 1 -> "a" and "k" -> 2; no representative equals "k" *)
       match base, idx with
       | Exact Rarr, Exact Ri1 => okv (Exact Rsa)
-      | Exact Rarr, Exact r => if is_string (kind_of r) then None else okv nil_v
+      | Exact Rarr, Exact _ => okv nil_v
       | Exact Rearr, _ => okv nil_v
       | _, _ => None
       end
@@ -438,8 +438,7 @@ Definition set_index (base : rep) (idx v : aval) : option (list wclass) :=
     | CErr => Some [WCast]
     | CUnk => None
     | CVal z =>
-      if 2 <? z then Some [WIndex]
-      else if z <? 0 then None                             (* finding: no lower bound test *)
+      if (z <? 0) || (2 <? z) then Some [WIndex]
       else if float_ok (akind v) then Some [] else Some [WCast]
     end
   | KNone =>
@@ -451,8 +450,8 @@ Definition set_index (base : rep) (idx v : aval) : option (list wclass) :=
     | CErr => Some [WCast]
     | CUnk => None
     | CVal z =>
+      (* a negative index passes the test; str::operator[] then hands out a dummy cell *)
       if size_of base <=? z then Some [WIndex]
-      else if z <? 0 then None
       else match char_cast v with
            | Some true => Some [] | Some false => Some [WCast] | None => None
            end
